@@ -19,8 +19,10 @@
 ; the same document (assumed, like the equivalence properties: it is what less
 ; being a strict weak order over the BSON total preorder amounts to).
 (define-fun entryKeys ((e S_bsonkit_indexEntry)) Seq_Val (S_bsonkit_indexEntry.keys e))
-(define-fun entryDoc ((e S_bsonkit_indexEntry)) Int (S_bsonkit_indexEntry.doc e))
+(define-fun entryDoc ((e S_bsonkit_indexEntry)) Ref (S_bsonkit_indexEntry.doc e))
 (declare-fun keysEq (Int Seq_Val Seq_Val) Bool)
+; equality of key tuples does not depend on the tree (column directions only affect the order)
+(assert (forall ((t Int) (a Seq_Val) (b Seq_Val)) (! (= (keysEq t a b) (keysEq 0 a b)) :pattern ((keysEq t a b)))))
 (assert (forall ((t Int) (a Seq_Val)) (! (keysEq t a a) :pattern ((keysEq t a a)))))
 (assert (forall ((t Int) (a Seq_Val) (b Seq_Val)) (! (= (keysEq t a b) (keysEq t b a)) :pattern ((keysEq t a b)))))
 (assert (forall ((t Int) (a Seq_Val) (b Seq_Val) (c Seq_Val))
